@@ -181,7 +181,7 @@ def check_scorer(rec, spec, X, label, t, pp, cuts=None, record=True):
     for variant in ("(0.0)", "((0,1))", "(percol,matrix)", "(percol)", "()"):       # one key per scorer class, not per parameter
         fam = fam.replace(variant, "")
     key = f"scorer:{fam}:{tlabel(t)}"
-    inp = {"level": "scorer", "scorer": spec["name"], "transform": t, "pp": pp, "X": X}
+    inp = {"level": "scorer", "scorer": spec["name"], "transform": t, "pp": pp, "X": X, "dtype": str(X.dtype)}
     try:
         base, e0 = safe_eval(spec["make"](ident).fit(X), cuts)
         tran, e1 = safe_eval(spec["make"](perm).fit(TX), tcuts)
@@ -222,6 +222,10 @@ def scorer_level(rec, tier, seed):
                         if t["type"] == "perm" and spec["kind"] == "las" and n > 6 and tier == "quick" and t["perm"] != sorted(t["perm"], reverse=True):
                             continue                     # LocalAnomalyScore refits per cut: one permutation suffices in quick
                         check_scorer(rec, spec, X, label, t, pp)
+                        if t["type"] != "perm" or t["perm"] == sorted(t["perm"], reverse=True):
+                            # the same for data held as integers (counts): the statement is about the values, not their dtype;
+                            # the shifted / scaled copy is a float array, the original an int64 one
+                            check_scorer(rec, spec, np.rint(3 * X).astype(np.int64), label + "-int64", t, pp)
 
 
 def make_pp(p, rng):
@@ -435,7 +439,7 @@ def check_detector(rec, obs, spec, X, label, t, base, record=True):
     n, p = X.shape
     st, out, final, stable = base
     name = spec["detector"]
-    inp = {"level": "detector", "detector": name, "kwargs": spec["kwargs"], "transform": t, "X": X}
+    inp = {"level": "detector", "detector": name, "kwargs": spec["kwargs"], "transform": t, "X": X, "dtype": str(X.dtype)}
     fp = ("detector", name, repr(sorted(spec["kwargs"].items())), label, repr(jsonable(t)))
     if st != "ok":
         if record:
@@ -541,6 +545,10 @@ def detector_level(rec, obs, tier, seed):
                 X = data[kind]
                 label = f"{kind}{r}-n{n}p{p}"
                 di += 1
+                if di % 3 == 0:                          # data held as integers (counts); the shifted / scaled copies are float arrays
+                    Xi = next((Z for Z in (np.rint(f * X).astype(np.int64) for f in (4, 8, 16, 64)) if spread_ok(Z, 2)), None)
+                    if Xi is not None:                   # (rounding may tie neighbours: zero-variance windows are outside the margin rule)
+                        X, label = Xi, label + "-int64"
                 ts = detector_transforms(spec, p, rng)
                 base = base_run(spec, X, seed * 1000003 + di)
                 for t in ts:
@@ -566,7 +574,7 @@ def run(tier="quick", seed=0, repo="/repo"):
 
 def replay(inp, repo="/repo"):
     use_repo(repo)
-    X = np.array(inp["X"], dtype=float)
+    X = np.array(inp["X"], dtype=inp.get("dtype", "float64"))
     n, p = X.shape
     rec, obs = Recorder(), Obs()
     t = inp["transform"]
